@@ -102,6 +102,20 @@ pub enum Op {
         ist: Settings,
         prec: u8,
     },
+    /// a SampleX preceded, on the same thread, by calls of OTHER public functions of
+    /// the crate with unusual arguments at values the sample is about to use (the
+    /// gamma quantile helper with 0 iterations / a huge tolerance at (dod, x_i); the
+    /// matrix routine on an unrelated matrix): memos keyed incompletely, scratch
+    /// shared between entry points.  The reference is the plain SampleX.
+    Interfered {
+        point: Vec<u64>,
+        ed: EdgeData,
+        st: Settings,
+        /// pairs of values the sample converts to f64 back to back (the arguments
+        /// of its gamma-quantile call), found by a traced run during generation
+        #[serde(default)]
+        pairs: Vec<(u64, u64)>,
+    },
     /// SimStore image of the sampler in use
     ImageCheck,
     /// the same operation `n` times in a row
@@ -126,6 +140,7 @@ impl Op {
             Op::AbortedRng { .. } => "aborted_rng_sample",
             Op::ImageCheck => "image",
             Op::Nested { .. } => "sample_x_with_reentrant_call",
+            Op::Interfered { .. } => "sample_x_after_other_public_calls",
             Op::Burst { .. } => "burst",
             Op::SampleXP { .. } => "sample_x_precision_carrying_scalar",
             Op::Repeat { .. } => "repeat",
@@ -414,9 +429,20 @@ fn exec_on(envs: &[Arc<Env>], e: usize, cs: &mut ClientState, op: &Op, record_tr
         }
         Op::ImageCheck => Outcome::Image(current(env, cs, e).image_settled().digest()),
         Op::SampleXP { point, ed, st, prec } => current(env, cs, e).sample_x_p(point, ed, st, *prec),
+        Op::Interfered { point, ed, st, pairs } => {
+            let s = current(env, cs, e);
+            crate::sampler::interfere(&*s, point, pairs);
+            s.sample_x(point, ed, st)
+        }
         Op::Nested { point, ed, st, at, ipoint, ied, ist, prec } => {
             let s = current(env, cs, e);
             let slot: std::rc::Rc<std::cell::RefCell<Option<Outcome>>> = std::rc::Rc::new(std::cell::RefCell::new(None));
+            // not if the probe at start-up showed that the library blocks when it is
+            // re-entered (a lock held across callbacks): the two calls then run one
+            // after the other
+            static REENTRY_OK: std::sync::OnceLock<bool> = std::sync::OnceLock::new();
+            let ok = *REENTRY_OK.get_or_init(|| std::env::var("MOMSIM_REENTRY").map(|v| v != "no").unwrap_or(true));
+            let at = if ok { at } else { &u64::MAX };
             {
                 let (s2, ip, ie, is_, pr, slot2) = (s.clone(), ipoint.clone(), ied.clone(), ist.clone(), *prec, slot.clone());
                 ctx::set_reenter(
@@ -673,12 +699,20 @@ fn reference(spec: &GraphSpec, refs: &Arc<dyn Sampler>, op: &Op) -> OpRecord {
     reference_t(spec, refs, op, false)
 }
 
+pub fn fresh_env_pub(spec: &GraphSpec, s: Arc<dyn Sampler>) -> Env {
+    fresh_env(spec, s)
+}
+
 fn reference_t(spec: &GraphSpec, refs: &Arc<dyn Sampler>, op: &Op, trace: bool) -> OpRecord {
     let envs = vec![Arc::new(fresh_env(spec, refs.clone()))];
     let mut cs = ClientState::new();
     // wrappers removed: the reference of Repeat / Alt is the inner operation, once,
     // on the pristine sampler of its own graph
     match op.strip().1 {
+        Op::Interfered { point, ed, st, .. } => {
+            let plain = Op::SampleX { point: point.clone(), ed: ed.clone(), st: st.clone() };
+            exec_op(&envs, &mut cs, &plain, trace, u64::MAX)
+        }
         Op::Nested { point, ed, st, ipoint, ied, ist, prec, .. } => {
             let flat = Op::Nested {
                 point: point.clone(),
